@@ -266,3 +266,10 @@ Qed.
 
 Lemma nth_error_snoc' {A} (l : list A) v k : List.length l = k -> nth_error (l ++ [v])%list k = Some v.
 Proof. intros <-. apply nth_error_snoc. Qed.
+
+Lemma nth_error_firstn_lt {A} (l : list A) : forall n k, k < n -> nth_error (firstn n l) k = nth_error l k.
+Proof.
+  induction l as [|a l IH]; intros n k Hk.
+  - now rewrite firstn_nil.
+  - destruct n; [lia|]. destruct k; simpl; [reflexivity|]. apply IH. lia.
+Qed.
